@@ -7,6 +7,31 @@ TB = ("Coq 8.16.1 kernel; axioms as printed by Print Assumptions (allow-list in 
       "tied to /repo only by that correspondence (DESIGN.md section 8)")
 
 CHECKS = {
+ "C22": dict(
+   text="Machine-checked on the model (all programs, queries, operation sequences, worlds): everything that outlives a query "
+        "is the record `world` (variable-id counter, stop flag, printed text); the query constructor overwrites counter and "
+        "flag, and the search treats the output as append-only (frame theorem for next / solve / solve_all); hence a query "
+        "that is built and then operated on by any sequence of next_solution / solve / solve_all yields, from ANY world - "
+        "whatever ran before, including re-asked, abandoned and timed-out queries - the observations of a fresh process and "
+        "prints the same text. That `world` really is all the cross-query state of the crate is what the correspondence over "
+        "multi-query histories checks (observations include the id counter after every operation). The reference search of "
+        "each query is checked as oracle on every request, whatever preceded it. Known finding (genuine, recorded, not "
+        "repairable without removing the per-query counter reset): a query that is built, then another query is BUILT, then "
+        "the first is asked.", ref="7/C22",
+   technique="Coq proof: frame theorem + constructor-forgets (Properties/C22.v) + model-vs-implementation correspondence on multi-query histories + reference-search oracle per query"),
+ "C23": dict(
+   text="PARTIAL with respect to the runtime (the timer thread, OS scheduling and thread_timer's cancel() are outside every "
+        "model). Machine-checked for EVERY schedule of the stop flag (never, or raised at the n-th read for any n): solve "
+        "reports the timeout message iff the read after the request is true, else `No more.` or the text of the answer the "
+        "request returned; solve_all reports the texts of answers that next_solution returned and after which the flag still "
+        "read false - an answer returned by a request during which the flag was raised is dropped -, the list is complete "
+        "when the search ended with the flag still false, and the timeout message follows exactly when the final read is true "
+        "(always after a cut-short search; the flag stays raised until the next query starts). Tied to the code with the "
+        "hook that raises the flag at the n-th read, for every n < 40 on fixed programs and random n on random ones; oracle: "
+        "the reported texts are a prefix of the reference answers, complete without message, never a message without a raise.",
+   ref="7/C23",
+   technique="Coq proof about the drivers under all flag schedules (Properties/C23.v) + deterministic flag schedule hook for model-vs-implementation correspondence + reference-search prefix oracle"),
+
  "C21": dict(
    text="Machine-checked theorems about the model of src/rule_reader.rs (after six repairs): for every list of rule "
         "texts that each contain exactly one rule end - a period outside ( ) [ ] and quotes that is not a decimal point "
